@@ -253,12 +253,42 @@ def same_rule(ck, mod, label):
         if v[0] == "f":
             ok = True
         elif v == ("a", cbi):
-            ok = not any(s.b in ir.blocks_reachable(f, e[1]) for e in nulledges) and bool(nulledges)
-        else:
+            # the parameter may be stored only where it is known to be non-NULL (dominated by the non-NULL edge of a test)
             ok = False
+            for (cnd, truth) in ir.conditions_at(f, s.b):
+                C = f.inst(cnd)
+                if C is not None and C.op == "icmp" and C.get("pred") in ("eq", "ne"):
+                    a, b = C.ops
+                    if (a == ("a", cbi) and ir.is_null(b)) or (b == ("a", cbi) and ir.is_null(a)):
+                        if (C.get("pred") == "ne") == truth:
+                            ok = True
+        else:
+            V = f.inst(v)
+            ok = False
+            if V is not None and V.op in ("phi", "select"):
+                # callback ? callback : system  — every incoming value is a function or the parameter on its non-NULL edge
+                ok = True
+                incs = [(tuple(x[0]), x[1]) for x in V.get("inc")] if V.op == "phi" else []
+                for inc, pb in incs:
+                    if inc[0] == "f":
+                        continue
+                    if inc == ("a", cbi):
+                        good = False
+                        for (cnd, truth) in ir.conditions_on_edge(f, pb, V.b):
+                            C = f.inst(cnd)
+                            if C is not None and C.op == "icmp" and C.get("pred") in ("eq", "ne") and ((C.ops[0] == ("a", cbi) and ir.is_null(C.ops[1])) or (C.ops[1] == ("a", cbi) and ir.is_null(C.ops[0]))):
+                                if (C.get("pred") == "ne") == truth:
+                                    good = True
+                        if not good:
+                            ok = False
+                    else:
+                        ok = False
+                if V.op == "select":
+                    ok = False
         ck.ob(ok, "R-C17-USABLE", f.name, "stored-callback-nonnull#%d[%s]" % (sts.index(s), label),
               "value stored into the callback field is a function or the non-NULL-tested parameter",
-              "a possibly-NULL value is stored into the callback field; later reseeds would call through NULL", where=relpath(s.where))
+              "a possibly-NULL value is stored into the callback field: a state created with callback == NULL has no entropy source for later reseeds (or reseed calls through NULL)",
+              where=relpath(s.where))
     esc = ir.rets_reachable_avoiding(f, [s.id for s in sts])
     ck.ob(bool(sts) and not esc, "R-C17-USABLE", f.name, "callback-always-stored[%s]" % label,
           "the callback field is written on every path", "a path leaves the callback field unset (zero) after init", where=relpath(f.rets()[0].where))
@@ -303,6 +333,13 @@ def run(ck, build):
     V, C = fields["V"]["offset"], fields["C"]["offset"]
     usable_rule(ck, mod, "tinyjambu_prng_init_user", label, [(V, "the entropy buffer (V)")])
     usable_rule(ck, mod, "tinyjambu_prng_reseed", label, [(V, "the old V"), (C, "the entropy buffer (C)")])
+    # reseed requests entropy on every path (a NULL-guarded request silently turns reseeding into a no-op)
+    g = mod.fn("tinyjambu_prng_reseed")
+    ics = [c for c in g.calls() if c.callee is None]
+    esc = ir.rets_reachable_avoiding(g, [c.id for c in ics])
+    ck.ob(bool(ics) and not esc, "R-C17-USABLE", g.name, "reseed-always-requests[%s]" % label,
+          "every path through tinyjambu_prng_reseed makes the entropy request", "a path through tinyjambu_prng_reseed skips the entropy request yet the function still mixes and reports a status",
+          where=relpath("%s:%d" % (g.file, g.line)), path=ir.path_desc(g, esc[0][1]) if esc else None)
     # the buffers handed to the callback are the ones mixed
     f1 = mod.fn("tinyjambu_prng_init_user")
     f2 = mod.fn("tinyjambu_prng_reseed")
